@@ -122,6 +122,9 @@ def run_check(prop: str, tier: str) -> int:
     t_start = time.monotonic()
 
     replay_dir = os.path.join(os.environ.get("VERIF_REPLAY_ROOT") or os.path.join(VERIF, "replays"), prop)
+    # (sensitivity runs only need to know whether *some* violation is found: with
+    # VERIF_FAIL_FAST the lanes stop exploring as soon as one of them has reported one)
+    stop_file = f"/dev/shm/dsim-stop-{os.getpid()}" if os.environ.get("VERIF_FAIL_FAST") else None
     procs = []
     for lane in range(lanes):
         cfg = {
@@ -130,6 +133,7 @@ def run_check(prop: str, tier: str) -> int:
             "base": base,
             "lane": lane,
             "lanes": lanes,
+            "stop_file": stop_file,
             "budget_s": budget,
             "sample_upto": sample,
             "hard_timeout": int(budget * 3 + 240),
@@ -138,6 +142,8 @@ def run_check(prop: str, tier: str) -> int:
         }
         procs.append((f"lane{lane}", spawn(cfg, hash_seed_for_lane(base, lane))))
     results, errors = collect(procs, budget * 3 + 300)
+    if stop_file and os.path.exists(stop_file):
+        os.remove(stop_file)
 
     runs = nontrivial = discarded = 0
     stats: dict = {}
